@@ -93,6 +93,8 @@ def main():
                                                "note": "two kind-check messages reworded"}
     index["benign_clamp_view_padding"] = {"patch": "mutants/benign_clamp_view_padding.patch", "properties": [], "silent": ["C13", "C02", "C10", "C17"],
                                           "note": "clamp's view grows by 32 bytes: some deep stacks now exceed field_view's 256-byte limit (ill-kinded by the library's own rule), nothing else changes"}
+    index["benign_array_bulk_io"] = {"patch": "mutants/benign_array_bulk_io.patch", "properties": [], "silent": ["C06", "C07", "C08", "C12", "C15"],
+                                     "note": "array payload written with one write and, when the widths match, read with one checked bulk read - same bytes, same failures"}
     # seeded changes delivered by independent sub-agents (seeded/<id>/meta.json carries "check_with")
     import glob
     for mp in sorted(glob.glob(os.path.join(V, "seeded/*/meta.json"))):
